@@ -512,10 +512,15 @@ impl Transport for QuicTransport {
     }
 
     fn negotiate(&mut self, connection_id: ConnectionId) -> crate::Result<()> {
-        let (connection, _address) = self
+        let (connection, address) = self
             .opened_raw
             .remove(&connection_id)
             .ok_or(Error::ConnectionDoesntExist(connection_id))?;
+
+        // `on_connection_established()` tells an outbound connection from an inbound one by
+        // whether `pending_dials` has its ID. Without the entry a connection made by `open()`
+        // was announced with a listener endpoint.
+        self.pending_dials.insert(connection_id, address);
 
         self.pending_connections
             .push(Box::pin(async move { (connection_id, Ok(connection)) }));
